@@ -1,7 +1,7 @@
 (* C18 — proofs about the foreign-function convention model (Lower/Abi.v). *)
 From Coq Require Import List Bool Arith NArith Lia.
 Import ListNotations.
-From DDP Require Import Lower.Abi.
+From DDP Require Import Gen.AbiTables Lower.Abi.
 
 (* ---------------------------------------------------------------------------------------------- *)
 (* 1. the declared IR signature is the published C signature, at ABI-class level                  *)
@@ -27,16 +27,27 @@ Section TyInd.
     end.
 End TyInd.
 
+(* the regenerated tables agree class by class; these four facts are what a change of ddptypes.h or of the
+   compiler's struct construction would falsify *)
 Lemma prim_rep_agree : forall p, ll_rep (ll_prim p) = c_rep (c_prim p).
 Proof. intros p; destruct p; reflexivity. Qed.
+Lemma string_rep_agree : ll_rep ll_string = c_rep c_string.
+Proof. reflexivity. Qed.
+Lemma any_rep_agree : ll_rep ll_any = c_rep c_any.
+Proof. reflexivity. Qed.
+Lemma list_rep_agree : forall l c, ll_rep l = c_rep c -> ll_rep (ll_list l) = c_rep (c_list c).
+Proof.
+  intros l c H. unfold ll_list, c_list, go_list_fields, hdr_list_fields.
+  cbn [ll_rep c_rep map]. rewrite H. reflexivity.
+Qed.
 
 Lemma ty_rep_agree : forall t, ll_rep (ll_ty t) = c_rep (c_ty t).
 Proof.
   intros t; induction t as [p | | | e IHe | fs IHfs | u IHu] using ty_ind_nested.
   - apply prim_rep_agree.
-  - reflexivity.
-  - reflexivity.
-  - cbn [ll_ty c_ty ll_list c_list ll_rep c_rep map]. rewrite IHe. reflexivity.
+  - apply string_rep_agree.
+  - apply any_rep_agree.
+  - cbn [ll_ty c_ty]. apply list_rep_agree. exact IHe.
   - cbn [ll_ty c_ty ll_rep c_rep]. f_equal. rewrite !map_map.
     induction IHfs as [| x r Hx Hr IH]; [reflexivity |].
     cbn [map]. rewrite Hx, IH. reflexivity.
